@@ -132,6 +132,26 @@ theorem coefficients_linear {ι κ : Type} [Fintype ι] [Fintype κ] (Y : ι →
       recon Y (fun i => α * a i + β * b i) p = α * recon Y a p + β * recon Y b p) :=
   ⟨coeffs_linear Y w, recon_linear Y⟩
 
+/-- T5, no hidden state: the coefficient map and the reconstruction are
+functions of what is passed in THIS call only — the harmonics at the angles of
+this call (`Y`), the weights (`w`), the field / the coefficients.  In the pure
+model this holds by construction (a Lean function has no state; the statement
+below is congruence).  That the Python functions behave like this model — in
+particular that nothing is remembered between calls, e.g. a basis cached per
+array shape — is carried by the correspondence `corr_history` of
+tools/props/C20.py (several samplings of one shape in one process, any order,
+first one revisited, each compared with these sums at the angles passed). -/
+theorem coefficients_stateless {ι κ : Type} [Fintype ι] [Fintype κ]
+    (Y Y' : ι → κ → ℂ) (w w' f f' : κ → ℂ) (a a' : ι → ℂ)
+    (hY : ∀ i p, Y i p = Y' i p) (hw : ∀ p, w p = w' p) (hf : ∀ p, f p = f' p) (ha : ∀ i, a i = a' i) :
+    (∀ i, coeffs Y w f i = coeffs Y' w' f' i) ∧ (∀ p, recon Y a p = recon Y' a' p) := by
+  have e1 : Y = Y' := funext fun i => funext fun p => hY i p
+  have e2 : w = w' := funext hw
+  have e3 : f = f' := funext hf
+  have e4 : a = a' := funext ha
+  subst e1 e2 e3 e4
+  exact ⟨fun _ => rfl, fun _ => rfl⟩
+
 /-- the part of "decomposition inverts synthesis" that is NOT proven: the
 harmonics are orthonormal for the discrete inner product of the grid.  (On the
 code's grid it holds exactly in `m` — `psi4_grid_m_orthogonal` — and only up to
